@@ -143,6 +143,9 @@ class Compose(object):
         obj = cls()
         try:
             obj.load(path)
-        except ValueError as exc:
+        except (ValueError, LookupError, TypeError, AttributeError) as exc:
+            # well-formed JSON that is not shaped like the expected metadata
+            # (missing sections, a list or null in place of a mapping) fails
+            # with these instead of ValueError
             raise RuntimeError('%s can not be deserialized: %s.' % (path, exc))
         return obj
